@@ -257,7 +257,13 @@ class World:
         for v in sorted(queries):
             ctx.c.oracle_evals["empirical"] += 1
             try:
-                p = float(self._np(dist.pvalue(v)))
+                form = (len(out) + int(v * 4)) % 3     # observed value as float, as 0-d tensor, as int when integral
+                arg = v
+                if form == 1:
+                    arg = self.pyhf.tensorlib.astensor(v)
+                elif form == 2 and float(v).is_integer():
+                    arg = int(v)
+                p = float(self._np(dist.pvalue(arg)))
             except Exception as e:
                 ctx.fail("empirical", {"cls": "empirical", "what": "raises"}, f"pvalue({v}) raised {type(e).__name__}: {e}")
                 return
@@ -326,6 +332,11 @@ class World:
                 self._do_script(mode)
             try:
                 smp = model.make_pdf(tl.astensor(pars)).sample((n,))
+                if mode != "seeded" and op["pt"] % 3 == 0:
+                    # a two-dimensional sample shape must simply prepend both dimensions
+                    smp2 = model.make_pdf(tl.astensor(pars)).sample((2, 3))
+                    sh2 = tuple(tl.shape(smp2))
+                    ctx.check(sh2 == (2, 3, nmain + naux), "sample", dict(sig, what="shape"), f"sample((2,3)) has shape {sh2}, expected (2, 3, {nmain + naux})")
             finally:
                 self._unscript()
         except Exception as e:
